@@ -371,7 +371,36 @@ def W22():
 
 
 
-ALL = [W01, W02, W03, W04, W05, W06, W07, W08, W09, W10, W11, W12, W14, W15, W16, W17, W18, W19, W20, W21, W22]
+def W23():
+    """Hexital + Heikin-Ashi + an indicator with its own timeframe: the timeframe manager is seeded with / fed
+    already converted candles, so its candles are not the HA conversion of the collapsed raw candles"""
+    raw = stream(40, seed=11)
+    alone = I.EMA(period=3, timeframe="T5", candlestick_type="HA", candles=copy.deepcopy(raw))
+    alone.calculate()
+    msgs = []
+    try:
+        h = Hexital("x", copy.deepcopy(raw), [I.EMA(period=3, timeframe="T5")], candlestick_type="HA")
+        h.calculate()
+        a = [(c.timestamp, round(c.open, 6), round(c.close, 6)) for c in alone.candles]
+        b = [(c.timestamp, round(c.open, 6), round(c.close, 6)) for c in h.candles("T5")]
+        if a != b:
+            msgs.append(f"construction: T5 HA candles differ from standalone (first diff at {next(i for i, (x, y) in enumerate(zip(a, b)) if x != y) if len(a) == len(b) else 'length'})")
+    except Exception as e:  # noqa
+        msgs.append(f"construction raised {type(e).__name__}")
+    try:
+        h2 = Hexital("x", [], [I.EMA(period=3, timeframe="T5")], candlestick_type="HA")
+        for c in copy.deepcopy(raw):
+            h2.append(c)
+        b2 = [(c.timestamp, round(c.open, 6), round(c.close, 6)) for c in h2.candles("T5")]
+        a = [(c.timestamp, round(c.open, 6), round(c.close, 6)) for c in alone.candles]
+        if a != b2:
+            msgs.append("append of Candle objects: T5 HA candles differ from standalone")
+    except Exception as e:  # noqa
+        msgs.append(f"append raised {type(e).__name__}: {e}"[:120])
+    return bool(msgs), "; ".join(msgs)
+
+
+ALL = [W01, W02, W03, W04, W05, W06, W07, W08, W09, W10, W11, W12, W14, W15, W16, W17, W18, W19, W20, W21, W22, W23]
 
 if __name__ == "__main__":
     want = set(sys.argv[1:])
